@@ -226,6 +226,25 @@ def handleAssemble (j : Json) : Json :=
   Json.mkObj [("text", charsToJson (React.assembleText (str "marked") chains offset)),
               ("certified", Json.bool (React.certifyAssemble (str "marked") chains offset (str "final")))]
 
+def handleEnumC (j : Json) : Json :=
+  let atoms : List EnumC.AtomV := match j.getObjVal? "atoms" with
+    | .ok (Json.arr a) => a.toList.map (fun x => match x with
+        | Json.arr #[z, r, i] => ⟨(z.getNat?.toOption).getD 0, (r.getNat?.toOption).getD 0, (i.getNat?.toOption).getD 0⟩
+        | _ => ⟨0, 0, 0⟩)
+    | _ => []
+  let adj : List (Nat × Nat × Nat) := match j.getObjVal? "adj" with
+    | .ok (Json.arr a) => a.toList.filterMap (fun x => match x with
+        | Json.arr #[a, b, o] => some ((a.getNat?.toOption).getD 0, (b.getNat?.toOption).getD 0, (o.getNat?.toOption).getD 0)
+        | _ => none)
+    | _ => []
+  let chain : List Nat := match j.getObjVal? "chain_open" with
+    | .ok (Json.arr a) => a.toList.map (fun x => (x.getNat?.toOption).getD 0)
+    | _ => []
+  match EnumC.enumerate ⟨atoms, adj⟩ chain with
+  | .ok x => Json.mkObj [("kind", "ok"), ("numbers", Json.arr (x.map (fun (n : Nat) => Json.num n)).toArray)]
+  | .raises w => Json.mkObj [("kind", "raises"), ("what", Json.str w)]
+  | .unmodelled => Json.mkObj [("kind", "unmodelled")]
+
 def handleReact (j : Json) : Json :=
   let str (k : String) := ((j.getObjValAs? String k).toOption.getD "").toList
   let nat (k : String) := (j.getObjValAs? Nat k).toOption.getD 0
@@ -263,6 +282,7 @@ def handle (line : String) : Json :=
     | some "cli" => handleCli j
     | some "gate" => handleGate j
     | some "create" => handleCreate j
+    | some "enumc" => handleEnumC j
     | some "assemble" => handleAssemble j
     | some "match" => handleMatch j
     | some "start" => handleStart j
